@@ -444,6 +444,7 @@ def _(c):
     c.raises("timeout", TimeoutError)
     c.raises("closed", RuntimeError)
     c.raises("cancelled", asyncio.CancelledError)
+    c.raises("payload_too_long", AssertionError)  # more than 256 bytes cannot be randomised (to_bytes asserts)
     # "transmits its DATA frame at most the configured number of attempts"
     c.ensures("post.attempt_budget", lambda fx: len(data_writes(fx)) <= ash.ACK_TIMEOUTS, on="any")
     c.ensures(
@@ -569,6 +570,7 @@ def _(c):
     c.raises("timeout", TimeoutError)
     c.raises("closed", RuntimeError)
     c.raises("cancelled", asyncio.CancelledError)
+    c.raises("payload_too_long", AssertionError)
     # the payload submitted is the payload of the one DATA frame whose transmission is started
     c.ensures(
         "post.one_send_with_the_payload",
